@@ -733,7 +733,7 @@ class CallMixin(ExprMixin):
         # an awaited callee may suspend (unless its contract says it does not in this pre-state): the caller's atomic
         # invariant must hold when control is given away, i.e. in the pre-call state
         may_suspend = False
-        if fi.is_async and self.top_ctx is not None and self.top_ctx.contract is not None and \
+        if (fi.is_async or c.env.get("suspends")) and self.top_ctx is not None and self.top_ctx.contract is not None and \
                 (self.top_ctx.contract.env.get("rely_havoc") or self.top_ctx.contract.env.get("rely_inv") or self.top_ctx.contract.env.get("atomic_inv")):
             may_suspend = True
             su = c.env.get("suspends_unless")
@@ -750,7 +750,7 @@ class CallMixin(ExprMixin):
             self.apply_rely(st, ctx, line, check_inv=False)
         for p in c.modifies:
             self.havoc_path(st, sctx, p)
-        if fi.is_async and "suspensions" in st.heap[st.ghost] and "ghost.suspensions" not in c.modifies:
+        if (fi.is_async or c.env.get("suspends")) and "suspensions" in st.heap[st.ghost] and "ghost.suspensions" not in c.modifies:
             # engine-maintained counter of suspension points: an awaited callee under contract may suspend any number of
             # times unless its contract says it does not suspend in this pre-state
             su = c.env.get("suspends_unless")
